@@ -47,6 +47,9 @@ let op_of s = match String.split_on_char ':' s with
   | _ -> failwith ("bad op " ^ s)
 let out_str = function Done -> "ok" | IndexError -> "IndexError" | ValueErr -> "ValueError" | Answer l -> "ans=" ^ String.concat "," (List.map string_of_pstr l)
 
+let bools_str l = if l = [] then "-" else String.concat "" (List.map (fun b -> if b then "1" else "0") l)
+let obj_str o = Printf.sprintf "%s,%s,%s,%d,%d" (string_of_pstr (text o)) (bools_str o.oeven) (bools_str o.oodd) (int_of_z (get_index o)) (int_of_z (get_diagonal_index o))
+
 let handle (toks : string list) : string =
   match toks with
   | ["sign"; p; q] -> res_str gi_str (sign_code (pstr_of_string p) (pstr_of_string q))
@@ -95,6 +98,17 @@ let handle (toks : string list) : string =
           let (s', outs) = run fx s [op_of o] in
           (s', (String.concat "," (List.map string_of_pstr s'.gens) ^ "|" ^ String.concat "" (List.map out_str outs)) :: acc)) (s0, []) ops in
       String.concat ";" ((String.concat "," (List.map string_of_pstr s0.gens)) :: List.rev acc)
+  | "edits" :: p :: ops ->
+      let o0 = fresh (pstr_of_string p) in
+      let (_, acc) = List.fold_left (fun (o, acc) e ->
+          match String.split_on_char ':' e with
+          | ["S"; start; sub] ->
+              let (o', ok) = set_substring o (z_of_int (int_of_string start)) (pstr_of_string sub) in
+              (o', (obj_str o' ^ (if ok then ",ok" else ",IndexError")) :: acc)
+          | ["N"] -> let o' = inc o in (o', (obj_str o' ^ ",ok") :: acc)
+          | _ -> failwith "bad edit") (o0, []) ops in
+      String.concat ";" (obj_str o0 :: List.rev acc)
+  | ["genall"; n] -> strs (gen_all (nat_of_int (int_of_string n)))
   | _ -> "ERR unknown request"
 
 let () =
